@@ -424,6 +424,27 @@ def sweep_tool(run, tool, srcdir, args_extra=()):
         raise C.EngineError("%s sweep failed (rc=%d):\n%s" % (tool, rc, o[-2000:]))
     r = json.load(open(out))
     r["cmd"] = " ".join(cmd)
+    # A per-case time limit is wall-clock time and can be hit only because the machine is busy (the sweep runs 16 gocc
+    # processes at a time): every case that timed out is run again on its own; what that run says replaces the timeout.
+    touts = [x for x in (r.get("fails") or []) if x.get("kind") == "timeout"]
+    if touts and len(touts) <= 200:
+        ids = sorted(set(x["id"] for x in touts))
+        still, extra_fails = 0, []
+        for cid in ids:
+            out1 = os.path.join(run.work, "%s-retry-%s.json" % (tool, cid))
+            cmd1 = [exe, "sweep", "-gocc", gocc, "-scope", run.tier, "-seed", str(run.seed), "-out", out1, "-only", cid, "-j", "1"] + list(args_extra)
+            C.sh(cmd1, cwd=run.work, env=env, timeout=1800)
+            if not os.path.exists(out1):
+                still += 1
+                extra_fails += [x for x in touts if x["id"] == cid]
+                continue
+            r1 = json.load(open(out1))
+            f1 = [x for x in (r1.get("fails") or []) if x.get("id") == cid]
+            still += len([x for x in f1 if x.get("kind") == "timeout"])
+            extra_fails += f1
+        r["fails"] = [x for x in (r.get("fails") or []) if x.get("kind") != "timeout"] + extra_fails
+        r["timeouts_first_pass"] = len(touts)
+        r["timeouts"] = still
     if not r.get("timeouts"):
         os.makedirs(os.path.dirname(cpath), exist_ok=True)
         json.dump(r, open(cpath, "w"))
